@@ -220,9 +220,75 @@ example : Chain exF ⟨1, 1, 0, none, [10]⟩ 5 6 := by
   have c5 : Chain exF ⟨1, 1, 0, none, [10]⟩ 4 6 := Chain.step (i := 4) c4 ⟨by decide, by decide, by decide⟩
   exact Chain.carry c5 (j := 5) (by decide)
 
+/-! ### negation witnesses: the REAL dumped results of two recorded replays (pinned tree 25e32d0)
+
+`exB` is the SSA image of `_, e := source2(); s, ok := e.(string); if ok { sink(s) }`
+(corpus/findings/C08b_commaok_extract, first flow) and `exBS`/`exBE` the state and edges the real pass
+produced for it: the chain call-result #1 → extract → type assertion → extract #0 → call argument
+exists, the mark is absent at the sink argument, the criterion is false.  `exA` is
+`func three(x string) (int, int, string) { return 0, 1, x }` (corpus/findings/C08a_return_index). -/
+
+def exB : Func :=
+  { instrs := #[ { kind := .call, res := 2, succs := [1] },
+                 { kind := .extract, res := 3, ops := [2], aux := 0, succs := [2] },
+                 { kind := .extract, res := 4, ops := [2], aux := 1, succs := [3] },
+                 { kind := .typeAssert, res := 5, ops := [4], succs := [4] },
+                 { kind := .extract, res := 6, ops := [5], aux := 0, succs := [5] },
+                 { kind := .extract, res := 7, ops := [5], aux := 1, succs := [6] },
+                 { kind := .ifc, ops := [7], succs := [7, 8] },
+                 { kind := .call, res := 9, ops := [6], succs := [8] },
+                 { kind := .ret } ],
+    origins := [⟨1, 2, 0, some 0, [1]⟩, ⟨2, 2, 0, some 1, [1]⟩],
+    targets := [⟨6, 7, [2]⟩, ⟨7, 6, [4]⟩] }
+
+def exBS : State := fun i =>
+  match i with
+  | 0 => [(2, 1), (2, 2)] | 1 => [(2, 1), (2, 2), (3, 1)] | 2 => [(2, 1), (2, 2), (3, 1), (4, 2)]
+  | 3 => [(2, 1), (2, 2), (3, 1), (4, 2), (5, 2)] | 4 => [(2, 1), (2, 2), (3, 1), (4, 2), (5, 2)]
+  | 5 => [(2, 1), (2, 2), (3, 1), (4, 2), (5, 2), (7, 2)] | 6 => [(2, 1), (2, 2), (3, 1), (4, 2), (5, 2), (7, 2)]
+  | 7 => [(2, 1), (2, 2), (3, 1), (4, 2), (5, 2), (7, 2)] | 8 => [(2, 1), (2, 2), (3, 1), (4, 2), (5, 2), (7, 2)]
+  | _ => []
+
+def exBE : List Edge := [(1, 2, 2)]
+
+/-- C08b on the model: the chain is there, the real state misses it, the criterion says so. -/
+theorem pinned_commaok_witness :
+    Chain exB ⟨2, 2, 0, some 1, [1]⟩ 7 6 ∧ has exBS 7 6 2 = false ∧
+      closed exB exBS exBE (reachFrom exB 0) = false := by
+  refine ⟨?_, by decide, ?_⟩
+  · have c0 : Chain exB ⟨2, 2, 0, some 1, [1]⟩ 0 2 := Chain.base
+    have c1 : Chain exB ⟨2, 2, 0, some 1, [1]⟩ 2 2 :=
+      Chain.carry (Chain.carry c0 (j := 1) (by decide)) (j := 2) (by decide)
+    have c2 : Chain exB ⟨2, 2, 0, some 1, [1]⟩ 2 4 := Chain.step (i := 2) c1 ⟨by decide, by decide, by decide⟩
+    have c3 : Chain exB ⟨2, 2, 0, some 1, [1]⟩ 3 5 :=
+      Chain.step (i := 3) (Chain.carry c2 (j := 3) (by decide)) ⟨by decide, by decide, by decide⟩
+    have c4 : Chain exB ⟨2, 2, 0, some 1, [1]⟩ 4 6 :=
+      Chain.step (i := 4) (Chain.carry c3 (j := 4) (by decide)) ⟨by decide, by decide, by decide⟩
+    exact Chain.carry (Chain.carry (Chain.carry c4 (j := 5) (by decide)) (j := 6) (by decide)) (j := 7) (by decide)
+  · simp [closed, reachOK, initOK, carryOK, xferOK, edgesOK, originReach, closedFrom, reachPlus, reachFrom,
+      reachSeeds, reachLoop, exB, exBS, exBE, has, marksOf, subsetS, factLt, dataOps, markPasses, passes, defKind,
+      eidx, List.range, List.range.loop, Array.getD, Array.setIfInBounds, Array.find?]
+
+def exA : Func :=
+  { instrs := #[ { kind := .ret, ops := [2, 3, 1] } ],
+    origins := [⟨1, 1, 0, none, [1]⟩],
+    targets := [⟨0, 2, [2]⟩, ⟨0, 3, [3]⟩, ⟨0, 1, [4]⟩] }
+
+/-- C08a on the model: the parameter is returned as result #2, its mark is on the returned value at
+the return, and the real summary has no edge into the node of result #2. -/
+theorem pinned_return_index_witness :
+    Chain exA ⟨1, 1, 0, none, [1]⟩ 0 1 ∧ has (fun _ => [(1, 1)]) 0 1 1 = true ∧ (1, 4, 0) ∉ ([] : List Edge) ∧
+      closed exA (fun _ => [(1, 1)]) [] (reachFrom exA 0) = false := by
+  refine ⟨Chain.base, by decide, by simp, ?_⟩
+  simp [closed, reachOK, initOK, carryOK, xferOK, edgesOK, originReach, closedFrom, reachPlus, reachFrom,
+    reachSeeds, reachLoop, exA, has, marksOf, subsetS, factLt, dataOps, eidx, List.range,
+    List.range.loop, Array.getD, Array.setIfInBounds]
+
 #print axioms closed_covers_chains
 #print axioms closed_summary_edge
 #print axioms closed_monotone_along_cfg
 #print axioms closed_covers_defuse
+#print axioms pinned_commaok_witness
+#print axioms pinned_return_index_witness
 
 end Argot.Intra
